@@ -482,6 +482,13 @@ class ExprMixin:
                     r = False
             elif isinstance(a, Ref) and isinstance(b, Ref):
                 r = a.ident == b.ident
+            elif isinstance(b, Const) and isinstance(b.v, bool):
+                # `x is True/False`: containers and payloads are never the bool singletons; a value produced by bool()/comparison is one of them
+                if isinstance(a, (Ref, Bytes, Seq)) or (isinstance(a, Const) and not isinstance(a.v, bool)):
+                    r = False
+                elif isinstance(a, BitV) and a.rng == (0, 1) or (isinstance(a, (Sym, Unknown)) and a.ty == "bool"):
+                    tv = self.truth(a, st, None)
+                    r = None if tv is None else (tv == b.v)
             if r is None:
                 return None
             return r if t is ast.Is else not r
